@@ -6,6 +6,8 @@ package c01x
 import (
 	"encoding/json"
 	"fmt"
+	"os"
+	"path/filepath"
 	"sort"
 	"strings"
 
@@ -31,6 +33,9 @@ func mergeMeta(m Meta, extra map[string]any) map[string]any {
 
 type SpecCase struct {
 	Meta Meta `json:"meta"`
+	// SpecText, if set, is the document text (corpus files); otherwise Meta.Doc is rendered.
+	SpecText string `json:"spec_text,omitempty"`
+	Infer    bool   `json:"infer,omitempty"`
 	// Extra is merged into the meta file (executor-specific replay data).
 	Extra  map[string]any `json:"extra,omitempty"`
 	Config regen.Config   `json:"config"`
@@ -76,16 +81,25 @@ func RunBatchOut(u *vk.Unit, tag string, specs []SpecCase, entry string, race bo
 	}
 	defer b.Remove()
 	for i, sc := range specs {
+		text := []byte(sc.SpecText)
+		if len(text) == 0 {
+			text = sc.Meta.Doc.Render()
+		}
+		cfg := sc.Config
+		if sc.Infer {
+			cfg.InferTypes = true
+			cfg.IgnoreNotImplemented = []string{"all"}
+		}
 		// response wrapper types and the status classes they serve come from the generator's IR
 		// (reflection cannot see them): generate once in memory, then for real with the completed meta
-		if pre := regen.Generate(sc.Meta.Doc.Render(), sc.Config, "", "api"); pre.Class == regen.OK && pre.Gen != nil {
+		if pre := regen.Generate(text, cfg, "", "api"); pre.Class == regen.OK && pre.Gen != nil {
 			sc.Meta.StatusTable, sc.Meta.Explicit = StatusTable(pre.Gen)
 		}
 		var metaOut any = sc.Meta
 		if sc.Extra != nil {
 			metaOut = mergeMeta(sc.Meta, sc.Extra)
 		}
-		out := b.Add(fmt.Sprintf("s%d", i), sc.Meta.Doc.Render(), sc.Config, metaOut)
+		out := b.Add(fmt.Sprintf("s%d", i), text, cfg, metaOut)
 		u.Eval(1)
 		u.Label("generate:" + out.Class)
 		switch out.Class {
@@ -162,4 +176,32 @@ func tailStr(s string, n int) string {
 		return "…" + s[len(s)-n:]
 	}
 	return s
+}
+
+// CorpusSpecs returns the repository corpus as SpecCases (documents up to maxSize bytes), under
+// the no-OpenTelemetry client+server configuration; every shard takes its slice.
+func CorpusSpecs(maxSize int) []SpecCase {
+	var out []SpecCase
+	shard, shards := vk.Shard()
+	n := 0
+	for _, g := range []string{"_testdata/positive/*.*", "_testdata/examples/*.*"} {
+		m, _ := filepath.Glob(filepath.Join(regen.Repo(), g))
+		sort.Strings(m)
+		for _, f := range m {
+			data, err := os.ReadFile(f)
+			if err != nil || len(data) == 0 || len(data) > maxSize {
+				continue
+			}
+			n++
+			if n%shards != shard {
+				continue
+			}
+			cfg := regen.ClientServer()
+			if strings.Contains(f, "convenient_errors") {
+				cfg.ConvenientErrors = "on"
+			}
+			out = append(out, SpecCase{Meta: Meta{TimeFormat: "date-time", Name: filepath.Base(f)}, Config: cfg, SpecText: string(data), Infer: true})
+		}
+	}
+	return out
 }
